@@ -287,6 +287,20 @@ def replay_grid(case) -> dict:
         c = case["centre"] - 1
         if got[c].magnitude() > 1e-3:
             fails.append(dict(desc, clause="IdentityNotAtCentre", route=route))
+    if n == 1:
+        # the same one-candidate set given as a Rotation OBJECT: stacked (length 1) or single (not stacked) - a set of one rotation
+        for form, robj in (("stacked", Rotation.identity(1)), ("single", Rotation.identity())):
+            try:
+                model = engine.api(cls, tmpl, rotations=robj)
+                q = np.asarray(engine.api(lambda: model.quaternions))
+                res = engine.api(model.align, apply_rot24(tmpl, np.eye(3, dtype=int), [1, -1, 0]), (MAX_SHIFT,) * 3)
+            except engine.ApiRaised as e:
+                fails.append(dict(desc, clause="Raised", route="rotation_object_" + form, error=e.kind, message=e.msg[:200]))
+                continue
+            if q.shape != (1, 4) or Rotation.from_quat(q[0]).magnitude() > 1e-3:
+                fails.append(dict(desc, clause="GridCount", route="rotation_object_" + form, observed=list(q.shape), expected=1))
+            elif float(np.max(np.abs(np.asarray(res.shift, dtype=float) - np.array([1.0, -1.0, 0.0])))) > 0.5:
+                fails.append(dict(desc, clause="Shift", route="rotation_object_" + form, observed=[round(float(x), 3) for x in res.shift], expected=[1, -1, 0]))
     # every candidate of a small quarter-turn grid, planted and searched for
     plant = case.get("plant") or []
     for k1, first in enumerate(plant, start=1):
